@@ -567,7 +567,48 @@ class Item:
                     self.notes.append("known-finding region %s: a symbolic witness did not replay" % f["id"])
         if ok:
             self.discharged += 1
+            if self.tier == "thorough" and getattr(self, "cross_check", False):
+                self._cvc5_cross(label, base + outside)
         return ok
+
+    def _cvc5_cross(self, label, conds):
+        """thorough tier: an obligation z3 discharged (unsat) is exported as SMT-LIB2 and re-decided by cvc5; a 'sat'
+        from cvc5 is a disagreement between the two solvers and makes the run inconclusive (exit 2)"""
+        if getattr(self, "_cvc5_budget", 240.0) <= 0:
+            return
+        try:
+            import cvc5
+        except ImportError:
+            return
+        s = z3.Solver()
+        for c in conds:
+            s.add(c)
+        txt = s.to_smt2()
+        t0 = time.time()
+        res = None
+        try:
+            slv = cvc5.Solver()
+            slv.setOption("tlimit-per", "20000")
+            slv.setLogic("ALL")
+            prs = cvc5.InputParser(slv)
+            prs.setStringInput(cvc5.InputLanguage.SMT_LIB_2_6, txt, "obligation")
+            sm = prs.getSymbolManager()
+            while True:
+                cmd = prs.nextCommand()
+                if cmd.isNull():
+                    break
+                out = str(cmd.invoke(slv, sm)).strip()
+                if out in ("sat", "unsat", "unknown"):
+                    res = out
+        except Exception as e:      # noqa  (a construct cvc5's parser does not accept: not cross-checked)
+            res = "error:" + type(e).__name__
+        self._cvc5_budget = getattr(self, "_cvc5_budget", 240.0) - (time.time() - t0)
+        if res == "unsat":
+            self.cvc5_checked += 1
+        elif res == "sat":
+            raise HarnessError("%s/%s: z3 says unsat, cvc5 says sat on the exported obligation" % (self.name, label))
+        else:
+            self.__dict__.setdefault("_cvc5_other", []).append(res)
 
     def _robust_model(self, conds, model, path):
         """prefer a counterexample that survives binary64 rounding (see robust()); fall back to the raw model"""
